@@ -218,12 +218,16 @@ func NewV1Layer(tarBytes []byte) v1.Layer {
 	return &memLayer{b: tarBytes, h: v1.Hash{Algorithm: "sha256", Hex: hex.EncodeToString(sum[:])}}
 }
 
-func (m *memLayer) Digest() (v1.Hash, error)             { return m.h, nil }
-func (m *memLayer) DiffID() (v1.Hash, error)             { return m.h, nil }
-func (m *memLayer) Compressed() (io.ReadCloser, error)   { return io.NopCloser(bytes.NewReader(m.b)), nil }
-func (m *memLayer) Uncompressed() (io.ReadCloser, error) { return io.NopCloser(bytes.NewReader(m.b)), nil }
-func (m *memLayer) Size() (int64, error)                 { return int64(len(m.b)), nil }
-func (m *memLayer) MediaType() (types.MediaType, error)  { return types.DockerUncompressedLayer, nil }
+func (m *memLayer) Digest() (v1.Hash, error) { return m.h, nil }
+func (m *memLayer) DiffID() (v1.Hash, error) { return m.h, nil }
+func (m *memLayer) Compressed() (io.ReadCloser, error) {
+	return io.NopCloser(bytes.NewReader(m.b)), nil
+}
+func (m *memLayer) Uncompressed() (io.ReadCloser, error) {
+	return io.NopCloser(bytes.NewReader(m.b)), nil
+}
+func (m *memLayer) Size() (int64, error)                { return int64(len(m.b)), nil }
+func (m *memLayer) MediaType() (types.MediaType, error) { return types.DockerUncompressedLayer, nil }
 
 // GzipV1Layer returns the layer as go-containerregistry's own gzip-compressed tarball layer
 // (slower; for checks that want the production layer type).
